@@ -8,11 +8,13 @@ Oracle: differential - the same statement in a FRESH interpreter loaded with a c
 from vt.world import enter, verdict, cfg, CFG, pick, cut
 from vt import npworld as W
 from klongpy.core import KGSym, KGFn, KLONG_UNDEFINED
+import klongpy.interpreter as I
 
 PROPERTY = "C04"
 USES_SYMNP = True
 A = W.interpreter()
 B = W.interpreter()
+S = W.interpreter()           # scratch: re-parses function definitions for B (see _load)
 FUNCTIONS = ["klongpy.interpreter.KlongInterpreter.__call__", "klongpy.interpreter.KlongInterpreter.__setitem__",
              "klongpy.interpreter.KlongInterpreter.eval", "klongpy.compiler.compile_expr", "klongpy.dyads.eval_dyad_amend",
              "klongpy.dyads.eval_dyad_amend_in_depth", "klongpy.dyads.eval_dyad_reshape", "klongpy.dyads.eval_dyad_join",
@@ -54,8 +56,18 @@ STMTS = [
     ("b::a:=p,2", ["b"]),
     ("c::1_a", ["c"]),
     ("c::c,p", ["c"]),
+    # reshape with a "-1" (half of #b) entry in a shape held by a variable / by a literal inside a function body
+    ("s::[-1 2]", ["s"]),
+    ("m::s:^a,a", ["m"]),
+    ("h::{[-1 2]:^x}", ["h"]),
+    ("r::h(a,a)", ["r"]),
+    ("r::h(a)", ["r"]),
+    # module switches: the parser qualifies names while a module is open; the same text may be evaluated repeatedly
+    (".module(:mm)", []),
+    (".module(0)", []),
+    ("u::p", ["u"]),
 ]
-NAMES = ["a", "b", "c", "d", "e", "f", "g", "m", "p", "r"]
+NAMES = ["a", "b", "c", "d", "e", "f", "g", "h", "m", "p", "r", "s", "u", "u`mm"]
 
 
 def _copy(v, memo):
@@ -87,19 +99,33 @@ def _copy(v, memo):
     return r
 
 
+NSYS = len(A._context._context) - 1          # system scopes at the back of the context stack
+
+
 def _state(k):
-    d = k._context._context[0]
-    return {str(n): d[KGSym(n)] for n in NAMES if KGSym(n) in d}
+    """every user scope of the context stack (outermost first): 'depth:name' -> value, plus the stack shape and the parser's
+    module (both are interpreter state that a statement may legitimately change and that the fresh interpreter B receives)"""
+    ctx = list(k._context._context)
+    user = ctx[:len(ctx) - NSYS][::-1]
+    st = {"__scopes__": [("module", str(d.name)) if isinstance(d, I.KGModule) else ("plain", "") for d in user],
+          "__module__": None if k._module is None else str(k._module), "__minctx__": k._context._min_ctx_count}
+    for i, d in enumerate(user):
+        for n in list(d.keys()):
+            st["%d:%s" % (i, n)] = d[n]
+    return st
 
 
 def _canon_state(st):
     out = {}
     for n, v in st.items():
-        out[n] = ("fn", v.arity) if isinstance(v, KGFn) else W.canon(v)
+        if n.startswith("__"):
+            out[n] = v
+        else:
+            out[n] = ("fn", v.arity) if isinstance(v, KGFn) else W.canon(v)
     # aliasing classes of dictionaries
     groups = []
     for n, v in st.items():
-        if isinstance(v, dict):
+        if isinstance(v, dict) and not n.startswith("__"):
             for g in groups:
                 if g[0] is v:
                     g[1].append(n); break
@@ -109,15 +135,33 @@ def _canon_state(st):
     return out
 
 
-def _load(k, st):
+def _fresh_fn(text):
+    """a function value built from its source text by a fresh parse: B must not share syntax-tree nodes (and the list
+    literals stored inside them) with A, otherwise a literal corrupted in place by A is corrupted for B as well"""
+    S._parse_cache.clear(); S._compiled_cache.clear(); S._module = None
+    S(text)
+    return S._context._context[0][KGSym(text.split("::", 1)[0])]
+
+
+def _load(k, st, defs=None):
     d = k._context._context
-    while len(d) > 3:
+    while len(d) > NSYS:
         d.popleft()
-    d[0].clear()
-    k._parse_cache.clear(); k._compiled_cache.clear(); k._module = None
+    k._parse_cache.clear(); k._compiled_cache.clear()
+    k._module = None if st.get("__module__") is None else KGSym(st["__module__"])
+    scopes = st.get("__scopes__", [("plain", "")])
     memo = {}
-    for n, v in st.items():
-        d[0][KGSym(n)] = _copy(v, memo)
+    for i, (kind, name) in enumerate(scopes):
+        sc = I.KGModule(KGSym(name)) if kind == "module" else {}
+        pre = "%d:" % i
+        for n, v in st.items():
+            if n.startswith(pre):
+                base = n[len(pre):].split("`")[0]
+                if defs and isinstance(v, KGFn) and base in defs:
+                    v = _fresh_fn(defs[base])
+                sc[KGSym(n[len(pre):])] = _copy(v, memo)
+        d.appendleft(sc)
+    k._context._min_ctx_count = st.get("__minctx__", NSYS)
 
 
 def _run(k, text):
@@ -144,7 +188,11 @@ def history(s1: int, s2: int, s3: int, s4: int, p1: int, p2: int) -> bool:
             sel[i] = f
     try:
         _load(A, {})
+        A._context._min_ctx_count = NSYS
         A('a::[1 2 3]'); A('d:::{[1 2]}'); A('f::{x}')
+        defs = {"f": "f::{x}"}
+        # the session has a history: a module was opened and closed before (its texts are in the parse cache)
+        A('.module(:mm)'); A('u::1'); A('.module(0)')
         A['p'] = p1
         for i in range(L):
             text, assigns = pick(STMTS, sel[i])
@@ -152,18 +200,23 @@ def history(s1: int, s2: int, s3: int, s4: int, p1: int, p2: int) -> bool:
                 A['p'] = p2                       # the payload may change between evaluations of the same text
             pre = _state(A)
             pre_c = _canon_state(pre)
-            _load(B, pre)
+            _load(B, pre, defs)
             rb = _run(B, text)
             ra = _run(A, text)
+            if len(text) > 4 and text[1:4] == "::{" and ra[0] == "ok":
+                defs[text[0]] = text
             if ra != rb:
                 return verdict(False)             # the result depends on something else than text + variables
             post_a = _canon_state(_state(A)); post_b = _canon_state(_state(B))
             if post_a != post_b:
                 return verdict(False)
             for n, v in pre_c.items():
-                if n == "__alias__" or n in assigns:
+                if n.startswith("__"):
                     continue
-                if n in ("d", "e") and text.startswith("d,"):
+                base = n.split(":", 1)[1].split("`")[0]
+                if base in assigns:
+                    continue
+                if base in ("d", "e") and text.startswith("d,"):
                     continue                      # dictionaries are shared objects updated in place (documented)
                 if post_a.get(n) != v:
                     return verdict(False)         # a variable the statement does not assign changed
